@@ -177,6 +177,9 @@ func c20RoundTrip(c *fx.Ctx, root *C20Node, family, spec string) {
 			continue
 		}
 		c.Distinct("nontrivial", want)
+		if c.Index()%97 == 0 {
+			c.Sample(map[string]interface{}{"family": family, "format": f.String(), "graph": clipS(want), "document": showDoc(f, doc)})
+		}
 	}
 }
 
